@@ -214,6 +214,49 @@ class Body:
                     work.append(s)
         return seen
 
+    @functools.cached_property
+    def ret_locals(self):
+        """locals standing for "the value this function returns": _0, plus the return place of every spliced helper
+        whose result the caller hands on unchanged - by `?` (Err part) or by returning it as it is"""
+        out = {0}
+        rets = self.mir.get("inlined_rets") or []
+        if not rets:
+            return out
+
+        def moved_to(l):
+            seen, work = {l}, [l]
+            while work:
+                a = work.pop()
+                for b in range(self.n):
+                    for st in self.blocks[b]["s"]:
+                        if "lhs" in st and not st["lhs"][1] and st["rv"].get("k") == "use":
+                            pl = op_place(st["rv"]["op"])
+                            if pl and pl[0] == a and not pl[1] and st["lhs"][0] not in seen:
+                                seen.add(st["lhs"][0])
+                                work.append(st["lhs"][0])
+            return seen
+
+        def tried(l):
+            for b in range(self.n):
+                t = self.blocks[b]["t"]
+                if t.get("k") == "call" and "fn" in t and Callee(t["fn"]).decl_path == "std::ops::Try::branch":
+                    a = op_place(t["args"][0])
+                    if a is not None and a[0] == l and not a[1]:
+                        return True
+            return False
+
+        changed = True
+        while changed:
+            changed = False
+            for r in rets:
+                if r["slot"] in out or r["dest"] is None:
+                    continue
+                m = moved_to(r["dest"])
+                if (m & out) or any(tried(x) for x in m):
+                    out.add(r["slot"])
+                    changed = True
+        return out
+
     def reach_flags(self, starts, avoid=(), cap=20000):
         """like reach(), but follows a `switch` on a bool local only along the edge that agrees with the constant the
         path assigned to it (the `_t = const true; goto join; switch(_t)` shape of `matches!`, `a || b` and let-else);
